@@ -336,7 +336,7 @@ def run_persist(req):
         f = req.get("f") or [0.5 + 1.75 * i * i for i in range(N)]
         feat = lambda ids: np.array([[f[i]] for i in ids], dtype=float)
         idx = lambda ids: None
-    tr = list(range(n))
+    tr = list(cfg.get("tr") or range(n))
     X, Y, I = feat(tr), np.array(cfg["labels"], dtype=int), idx(tr)
     if model == "sup":
         opf.fit(X, Y, I)
@@ -418,9 +418,23 @@ def run_learn(req):
         iters = []
         real_acc = sup.g.opf_accuracy
 
-        def spy(labels, preds):
-            a = real_acc(labels, preds)
-            iters.append((float(a), snap(opf.subgraph)))
+        alllabs = list(ltr) + list(lv)
+        last = {}
+        orig_predict = opf.predict
+
+        def predict_spy(X, *a, **k):
+            p = orig_predict(X, *a, **k)
+            last["X"], last["p"] = X, p
+            return p
+        opf.predict = predict_spy
+
+        def spy(a1, a2):
+            a = real_acc(a1, a2)
+            true = a
+            if last.get("X") is not None:
+                labs = np.array([alllabs[int(r[0])] for r in last["X"]], dtype=int)
+                true = real_acc(labs, np.asarray(last["p"]))
+            iters.append((float(true), snap(opf.subgraph)))
             return a
         np.random.uniform = fake
         sup.g.opf_accuracy = spy
@@ -432,6 +446,7 @@ def run_learn(req):
         finally:
             np.random.uniform = real_uniform
             sup.g.opf_accuracy = real_acc
+            opf.__dict__.pop("predict", None)
         if not bad:
             before = sorted([(float(i), ltr[i]) for i in range(ntr)] + [(float(ntr + i), lv[i]) for i in range(nv)])
             after = sorted([(float(Xt[i][0]), int(Yt[i])) for i in range(ntr)] + [(float(Xv[i][0]), int(Yv[i])) for i in range(nv)])
